@@ -33,7 +33,6 @@ SPEC = {
         # no CBMC heap object is used by this group (every allocation is served from static blocks of exactly the requested capacity
         # class): bounds are enforced by CBMC's own object bounds, the requested-size shadow table of --heapcheck would be idle
         'config': {'heapcheck': False},
-        'defines': ['-DKF_C18_1'],
         'obligations': [
         ] + [sc(x) for x in ['AAAD', 'AADA', 'AADD', 'ADAD', 'ADDA', 'DADA', 'ADCA', 'AADC', 'AXAD', 'ADXA']] + [
             sc(x, tier='thorough', timeout=900) for x in ['AAAA', 'ADAA', 'ADDD', 'DAAD', 'DDAD', 'ACDA', 'AAXD', 'ADCD', 'ooo']] + [
@@ -42,11 +41,12 @@ SPEC = {
             sc(x, tier='thorough', timeout=4800) for x in ['oooo', 'ooCoo', 'ooXoo']] + [
             # 'ooooo' (all 32 orders of 5 requests/releases at once): 9.9M variables, no verdict in 1200 s - not claimed; the 5-operation scripts above are
             ob('harness_same_class_2', bounds=S % (2, 2), lists=4),
+            # open known finding KF-C18-1: the defect must still reproduce (expected to FAIL)
+            ob('finding_clearall_uncached_size', bounds='alloc(300); clearAllIncludingCurrentlyUsedMemory()', expect='fail'),
             ob('harness_same_class_3', bounds=S % (3, 3), lists=6, unwind=9, tier='thorough', timeout=1800),
         ],
     }, {
         'name': 'global', 'wrapper': 'w18g.cpp', 'harness': 'h18g.c', 'config': {},
-        'defines': ['-DKF_C18_1'],
         'obligations': [
         ] + [ob('harness_global_scope_%d' % k, lists=2, bounds='GlobalSimpleStringCache constructed; two requests through the installed allocator of sizes %s; '
                    'any subset released (symbolic); destroyed' % s) for k, s in enumerate(['(0, 32)', '(33, 64)', '(96, 97)', '(128, 129)', '(256, 257)', '(300, 1024)'])] + [
